@@ -14,30 +14,28 @@ from ._shared import gen, oracle
 # A call is a JSON-able descriptor so that inputs and schedule shrink / replay together.
 
 def make_call(d):
-    from random import Random
-    from schwifty import BIC, IBAN
-    k = d["op"]
-    if k == "de":
-        from schwifty.checksum import algorithms
-        algo = algorithms["DE:" + d["method"]]
-        return lambda: algo.validate([d["account"]], "")
-    if k == "iban":
-        return lambda: str(IBAN(d["text"], validate_bban=d.get("validate_bban", False)))
-    if k == "generate":
-        return lambda: str(IBAN.generate(d["cc"], bank_code=d["bank_code"], account_code=d["account_code"],
-                                         branch_code=d.get("branch_code", "")))
-    if k == "random":
-        return lambda: str(IBAN.random(d["cc"], random=Random(d["seed"]), use_registry=d.get("use_registry", True)))
-    if k == "from_bank_code":
-        return lambda: str(BIC.from_bank_code(d["cc"], d["code"]))
-    if k == "iban_bic":
-        return lambda: str(IBAN(d["text"]).bic)
-    if k == "bic":
-        return lambda: str(BIC(d["text"]))
-    raise HarnessError(f"unknown op {k}")
+    """Descriptors are those of vlib.calls (so that the same call can run in a fork of the pristine zygote)."""
+    from .. import calls
+    return lambda: calls.outcome(d)
 
 
 _ALONE = {}
+_BUDGET = {"t_end": None}
+
+
+def start_budget(tier, quick_s=35, thorough_s=420):
+    import time
+    _BUDGET["t_end"] = time.time() + (quick_s if tier == "quick" else thorough_s)
+
+
+def out_of_budget(rec=None):
+    import time
+    if _BUDGET["t_end"] is not None and time.time() > _BUDGET["t_end"]:
+        if rec is not None and "budget" not in rec.classes:
+            rec.classes["budget"] += 1
+            rec.notes.append("a C14 shard stopped at its time budget (exploration ended early; not a verdict)")
+        return True
+    return False
 
 
 def alone(d, opcode=False):
@@ -85,6 +83,30 @@ def check_schedule(rec: Rec, descs, schedule, origin, opcode=False):
 
 def replay(rec, case):
     i = case["input"]
+    if i.get("cold"):
+        from ..engines.zygote import Zygote
+        zyg = Zygote()
+        try:
+            want = [["ok", zyg.reference(d)] for d in i["calls"]]
+            r = zyg.concurrent(i["calls"], loc_points=[tuple(p) for p in i["loc_points"]])
+            if r.get("outcomes") != want:
+                rec.fail("interference|replay|cold-start", "concurrent_equals_alone", i, want, r.get("outcomes", r))
+        finally:
+            zyg.close()
+        return
+    if i.get("loc_points"):
+        # same pre-state as in the exploration (calls run alone, call 0 traced), and the schedule a few times in a row:
+        # single-slot memos make the outcome depend on which call ran last
+        expected = [alone(d)[0] for d in i["calls"]]
+        sched.trace_locations(make_call(i["calls"][0]), repo_root())
+        for _ in range(4):
+            got, _ = sched.run_concurrently([make_call(d) for d in i["calls"]], [], repo_root(),
+                                            loc_points=[tuple(p) for p in i["loc_points"]])
+            if list(got) != expected:
+                rec.fail("interference|replay|at-location", "concurrent_equals_alone", i, [list(w) for w in expected],
+                         [list(g_) for g_ in got])
+                return
+        return
     check_schedule(rec, i["calls"], [tuple(p) for p in i["schedule"]], "replay", i.get("opcode", False))
 
 
@@ -165,7 +187,7 @@ def mixed_call(rng):
         cc, code = rng.choice([x for x in st["keys"] if x[0] in ("DE", "AT", "NL", "CH", "ES")])
         from .c12 import place_key
         t = place_key(o, g, cc, code, rng)
-        return {"op": "iban_bic", "text": t or g.iban("DE", rng)}
+        return {"op": "obj", "create": {"kind": "iban", "text": t or g.iban("DE", rng)}, "what": "bic"}
     if k == "bic":
         return {"op": "bic", "text": rng.choice(["GENODEM1GLS", "GENODEM1", "GENODEM1GL", "XXXXQQ22", "A1B2FR2A"])}
     m = rng.choice(st["impl"])
@@ -179,6 +201,8 @@ def enumerate_two_preemptions(rec, descs, stride, origin, opcode=False):
     n1 = alone(descs[1], opcode)[1]
     cases = 0
     for a in range(0, n0 + 1, stride):
+        if out_of_budget(rec):
+            break
         for b in range(1, n1 + 1, stride):
             sch = [(a + 1, 1), (a + 1 + b, 0)] if a > 0 else [(1, 1), (1 + b, 0)]
             info, eff = check_schedule(rec, descs, sch, origin, opcode)
@@ -194,10 +218,11 @@ def shard_method(arg):
     import random
     rng = random.Random(f"{seed}:C14:{m}")
     rec = Rec()
+    start_budget(tier)
     state()
     quick = tier == "quick"
     stateful = m in ("02", "04", "07", "14", "16", "23", "25", "11", "08", "13", "63", "68", "76", "26", "88", "99")
-    pairs = 2 if quick else 6
+    pairs = 2 if quick else 3
     for p in range(pairs):
         descs = pair_for_method(rng, m)
         stride = (3 if stateful else 7) if quick else 1
@@ -209,6 +234,8 @@ def shard_method(arg):
             rec.exhaustive.append("all schedules with <= 2 preemptions (line granularity) of the method-level call pairs")
     # random multi-preemption schedules from the shard PRNG, two and three threads
     for _ in range(20 if quick else 400):
+        if out_of_budget(rec):
+            break
         k = rng.choice((2, 2, 3))
         descs = [pair_for_method(rng, m)[0] for _ in range(k)]
         total = sum(alone(d)[1] for d in descs)
@@ -252,6 +279,7 @@ def shard_national(arg):
     import random
     rng = random.Random(f"{seed}:C14:nat:{cc}")
     rec = Rec()
+    start_budget(tier)
     quick = tier == "quick"
     for p in range(2 if quick else 8):
         calls = national_calls(rng, cc)
@@ -261,6 +289,8 @@ def shard_national(arg):
         if p == 0:
             rec.sample(f"enum-national-{cc}", {"calls": descs, "schedules": n})
     for _ in range(10 if quick else 200):
+        if out_of_budget(rec):
+            break
         k = rng.choice((2, 3))
         descs = [rng.choice(national_calls(rng, cc)) for _ in range(k)]
         total = sum(alone(d)[1] for d in descs)
@@ -270,13 +300,201 @@ def shard_national(arg):
     return rec
 
 
+# ---------------------------------------------------------------------------------------------- location-based preemption
+
+def typo_pair(rng, cc=None):
+    """(validation of a single-typo mutant, validation of the valid original): same check digits / same BBAN neighbourhood."""
+    g, o = gen(), oracle()
+    cc = cc or rng.choice(o.countries())
+    base = g.iban(cc, rng)
+    i = rng.randrange(4, len(base))
+    pool = "0123456789" if base[i].isdigit() else "ABCDEFGHIJKLMNOPQRSTUVWXYZ"
+    m = base[:i] + rng.choice([c for c in pool if c != base[i]]) + base[i + 1:]
+    flag = rng.random() < 0.3
+    return [{"op": "iban", "text": m, "validate_bban": flag}, {"op": "iban", "text": base, "validate_bban": flag}]
+
+
+def variant91_pair(rng):
+    """two method-91 accounts that only the same non-first variant accepts (reference variants of O-de)."""
+    from ..oracles.de import pz06
+    st = state()
+    if "91" not in st["impl"]:
+        return None
+    found = {}
+    for _ in range(20000):
+        a = f"{rng.randrange(10 ** 10):010d}"
+        A = [int(c) for c in a]
+        v3 = sum(x * y for x, y in zip(A[::-1], (2, 3, 4, 0, 5, 6, 7, 8, 9, 10))) % 11
+        cands = [pz06(a, (2, 3, 4, 5, 6, 7), 1, 6), pz06(a, (7, 6, 5, 4, 3, 2), 1, 6), 0 if v3 in (0, 1) else 11 - v3,
+                 pz06(a, (2, 4, 8, 5, 10, 9), 1, 6)]
+        hits = [k for k, c in enumerate(cands) if c == A[6]]
+        if len(hits) == 1 and hits[0] > 0:
+            found.setdefault(hits[0], []).append(a)
+            if len(found[hits[0]]) == 2:
+                a1, a2 = found[hits[0]]
+                banks = st["by_method"].get("91")
+                if banks and rng.random() < 0.5:
+                    return [{"op": "iban", "text": de_iban(rng.choice(banks), a1), "validate_bban": True},
+                            {"op": "iban", "text": de_iban(rng.choice(banks), a2), "validate_bban": True}]
+                return [{"op": "de", "method": "91", "account": a1}, {"op": "de", "method": "91", "account": a2}]
+    return None
+
+
+def first_use_pairs(rng):
+    """pairs whose first call in a process may build something lazily: lookups, component reads, generation."""
+    st, g, o = state(), gen(), oracle()
+    from .c12 import place_key
+    out = []
+    keys = rng.sample(st["keys"], 3)
+    for cc, code in keys:
+        t = place_key(o, g, cc, code, rng) if cc in o.table else None
+        bic_of = {"op": "from_bank_code", "cc": cc, "code": code}
+        out.append([bic_of, {"op": "candidates", "cc": cc, "code": code}])
+        if t:
+            c = {"kind": "iban", "text": t}
+            out.append([{"op": "obj", "create": c, "what": "bic"}, {"op": "obj", "create": c, "what": "bank"}])
+            out.append([bic_of, {"op": "obj", "create": c, "what": "bank_name"}])
+    out.append([{"op": "obj", "create": {"kind": "bic", "text": "GENODEM1GLS"}, "what": "domestic_bank_codes"},
+                {"op": "obj", "create": {"kind": "bic", "text": "MARKDEF1100"}, "what": "exists"}])
+    out.append([{"op": "obj", "create": {"kind": "bic", "text": "MARKDEF1100"}, "what": "bank_names"},
+                {"op": "from_bank_code", "cc": "DE", "code": "10000000"}])
+    for cc in rng.sample(o.countries(), 3):
+        if o.positions(cc):
+            t1, t2 = g.iban(cc, rng), g.iban(cc, rng)
+            out.append([{"op": "obj", "create": {"kind": "iban", "text": t1}, "what": "snapshot"},
+                        {"op": "obj", "create": {"kind": "iban", "text": t2}, "what": "snapshot"}])
+    cc = rng.choice(["DE", "GB", "FR", "PL", "NO", "ES"])
+    out.append([{"op": "random", "cc": cc, "seed": 1, "use_registry": True}, {"op": "random", "cc": cc, "seed": 2, "use_registry": True}])
+    return out
+
+
+def level_pairs(rng):
+    """IBAN-level pairs (no national algorithm needed): typo pairs, assembling vs parsing, generation vs parsing."""
+    g, o = gen(), oracle()
+    out = [typo_pair(rng), typo_pair(rng), typo_pair(rng, rng.choice(["DE", "GB", "MT", "FR"]))]
+    cc = rng.choice(o.countries())
+    b1, t2 = g.bban(cc, rng), g.iban(cc, rng)
+    out.append([{"op": "from_bban", "cc": cc, "bban": b1}, {"op": "iban", "text": t2}])
+    out.append([{"op": "from_bban", "cc": cc, "bban": b1, "as_object": True}, {"op": "from_bban", "cc": cc, "bban": t2[4:]}])
+    out.append([{"op": "bic", "text": "GENODEM1GLS"}, {"op": "bic", "text": "genodem1 gl"}])
+    out.append([{"op": "iban", "text": " ".join(t2[i:i + 4] for i in range(0, len(t2), 4)).lower()}, {"op": "bic", "text": "GENODEM1GLS"}])
+    p91 = variant91_pair(rng)
+    if p91:
+        out.append(p91)
+    return out
+
+
+def enumerate_locations_warm(rec, descs, origin):
+    """For every distinct library location L of call 0: switch to the other thread at the first arrival at L; the other call
+    runs (to its end unless it blocks), then call 0 resumes. Both orders are enumerated by the caller."""
+    _, locs = sched.trace_locations(make_call(descs[0]), repo_root())
+    expected = [alone(d) for d in descs]
+    n = 0
+    for L in locs:
+        if out_of_budget(rec):
+            break
+        inp = {"calls": descs, "loc_points": [[0, L, 1, 1]], "schedule": [], "origin": origin, "cold": False}
+        try:
+            got, info = sched.run_concurrently([make_call(d) for d in descs], [], repo_root(), loc_points=[(0, L, 1, 1)])
+        except sched.SchedulerError as e:
+            raise HarnessError(f"scheduler error: {e} on {inp}")
+        n += 1
+        rec.evals += 1
+        if any(s_[3] for s_ in info["switches"]) or info["switches"]:
+            rec.nt.add(hash((json.dumps(descs, sort_keys=True), L)))
+        if [g_ for g_ in got] != [w for w, _ in expected]:
+            who = descs[0]["op"]
+            rec.fail(f"interference|{who}|with:{descs[1]['op']}|at-location", "concurrent_equals_alone", inp,
+                     [list(w) for w, _ in expected], [list(g_) for g_ in got])
+            _ALONE.clear()
+    return n
+
+
+def shard_locations(arg):
+    i, seed, tier = arg
+    import random
+    rng = random.Random(f"{seed}:C14:loc:{i}")
+    rec = Rec()
+    start_budget(tier)
+    state()
+    pairs = level_pairs(rng)
+    if tier != "quick":
+        pairs += level_pairs(rng) + level_pairs(rng)
+        pairs += [pair_for_method(rng, m) for m in rng.sample(state()["impl"], 6)]
+    for descs in pairs:
+        for order in (descs, descs[::-1]):
+            n = enumerate_locations_warm(rec, order, "locations-warm")
+            rec.classes["loc-warm-schedules"] += n
+        rec.classes["loc-warm-pair-" + "+".join(sorted(d["op"] for d in descs))] += 1
+    rec.sample("loc-warm", {"calls": pairs[0], "rule": "switch at first arrival at every distinct location of call 0"})
+    rec.exhaustive.append("every distinct library location of one call as single preemption point, both orders, per generated pair")
+    return rec
+
+
+def shard_cold(arg):
+    """The same enumeration in forks of the pristine zygote: both calls are the first calls of a fresh process."""
+    i, seed, tier = arg
+    import random
+    import time
+    from ..engines.zygote import Zygote
+    rng = random.Random(f"{seed}:C14:cold:{i}")
+    rec = Rec()
+    state()
+    zyg = Zygote()
+    t_end = time.time() + (20 if tier == "quick" else 240)
+    try:
+        pairs = first_use_pairs(rng)
+        extra = level_pairs(rng)
+        pairs += [extra[0], extra[3], extra[-1]]
+        if i % 2:
+            pairs.reverse()
+        for descs in pairs:
+            if time.time() > t_end:
+                break
+            for order in (descs, descs[::-1]):
+                if time.time() > t_end:
+                    break
+                want = [zyg.reference(d) for d in order]
+                tr = zyg.trace(order[0])
+                if tr["outcome"] != ["ok", want[0]]:
+                    raise HarnessError(f"traced cold run differs from untraced cold run: {order[0]}")
+                locs = tr["locs"]
+                if tier == "quick" and len(locs) > 40:
+                    step = len(locs) // 40 + 1
+                    locs = locs[:12] + locs[12::step]
+                for L in locs:
+                    if time.time() > t_end:
+                        rec.notes.append("cold enumeration stopped at its time budget")
+                        break
+                    r = zyg.concurrent(order, loc_points=[(0, L, 1, 1)])
+                    rec.evals += 1
+                    rec.classes["loc-cold-schedules"] += 1
+                    if "error" in r:
+                        raise HarnessError(f"scheduler error in cold run: {r['error']}")
+                    if r["switches"]:
+                        rec.nt.add(hash((json.dumps(order, sort_keys=True), L, "cold")))
+                    got = r["outcomes"]
+                    if got != [["ok", w] for w in want]:
+                        rec.fail(f"interference|{order[0]['op']}|with:{order[1]['op']}|cold-start", "concurrent_equals_alone",
+                                 {"calls": order, "loc_points": [[0, L, 1, 1]], "schedule": [], "origin": "locations-cold", "cold": True},
+                                 [["ok", w] for w in want], got)
+            rec.classes["loc-cold-pair"] += 1
+        rec.sample("loc-cold", {"calls": pairs[0], "rule": "fork of pristine zygote per schedule; switch at first arrival at a location"})
+    finally:
+        zyg.close()
+    return rec
+
+
 def shard_mixed(arg):
     i, seed, tier = arg
     import random
     rng = random.Random(f"{seed}:C14:mixed:{i}")
     rec = Rec()
+    start_budget(tier)
     state()
     for _ in range(25 if tier == "quick" else 300):
+        if out_of_budget(rec):
+            break
         k = rng.choice((2, 2, 3))
         descs = [mixed_call(rng) for _ in range(k)]
         if rng.random() < 0.4:
@@ -338,8 +556,10 @@ def run(ctx):
     ctx.assumptions = ["interleavings inside C code and third-party modules are atomic steps (not explored)",
                        "granularity: source line (opcode samples in thorough)"]
     ctx.pmap(shard_method, [(m, ctx.seed, ctx.tier) for m in st["impl"]])
+    ctx.pmap(shard_locations, [(i, ctx.seed, ctx.tier) for i in range(16)])
+    ctx.pmap(shard_cold, [(i, ctx.seed, ctx.tier) for i in range(16)])
     ctx.pmap(shard_national, [(cc, ctx.seed, ctx.tier) for cc in NATIONAL])
     ctx.pmap(shard_mixed, [(i, ctx.seed, ctx.tier) for i in range(16 if ctx.quick else 32)])
     ctx.hyp_explore(strategy(), hyp_body, ctx.pick(300, 6000), name="C14-hyp", shrink_s=ctx.pick(25, 200))
-    ctx.require_classes("mixed", "hyp", "random-2-threads", "random-3-threads", "random-national",
+    ctx.require_classes("loc-warm-schedules", "loc-cold-schedules", "loc-cold-pair", "mixed", "hyp", "random-2-threads", "random-3-threads", "random-national",
                         *[f"enum-{m}" for m in st["impl"]], *[f"enum-national-{cc}" for cc in NATIONAL])
